@@ -239,7 +239,8 @@ PROPS = {
                       "C04_timestamp_uptodate_check_pure / _checks_pure / _edit_after_checks_detected (a check ending in 'up to date' changes "
                       "nothing - no marker moved, none created -, so a source written after the last run is rebuilt however many checks lay in "
                       "between), "
-                      "C04_timestamp_skip_generates_exist, C04_partial_queries (--status / --dry / --list --json verdicts are as sound as a run: the verdict is "
+                      "C04_timestamp_skip_generates_exist, C04_partial_src (the same conclusion in terms of the names and contents of the sources - ghost "
+                      "Attempt.src, goodRunSrc - under an explicit no-collision hypothesis; C04_constant_hash_vacuous shows why), C04_partial_queries (--status / --dry / --list --json verdicts are as sound as a run: the verdict is "
                       "mode-independent), and decide-checked counterexamples to C04_full over the patched model (a second activation of the task in one "
                       "invocation reported up to date while the first still runs: C04_counterexample_concurrent / C04_concurrent_root; kill for both "
                       "methods, method timestamp: never ran / failed run / generates "
